@@ -149,6 +149,12 @@ def check_C(S, p):
         shape = GS.random_shape(rng, 1, 4, 7)
         data = GS.values(rng, O.prod(shape), rng.choice(["signed", "dyadic", "int"]))
         fname = rng.choice(list(FILLS))
+        if i % 3 == 0 and fname in ("zero", "minus-one"):
+            # input that already LOOKS folded: every entry above the fold line equals the fill value (sparse / unit spectra,
+            # or the output of an earlier fold); the diagonal pairs are unequal, so folding must still average them
+            T = sum(x - 1 for x in shape)
+            data = [FILLS[fname] if 2 * sum(ix) > T else v for ix, v in zip(O.indices(shape), data)]
+            S.count("C_already_folded_looking_inputs")
         as_npy = rng.random() < 0.5
         inp = GS.npy_bytes(shape, data) if as_npy else GS.text_spectrum(shape, data, 3)
         args = ["fold", "--precision", "4"] + ([] if fname == "nan" and rng.random() < 0.5 else ["--fill", fname])
